@@ -260,6 +260,17 @@ func (r *run) monitor(events []string, st *scheduler.VerifState, dump string) {
 			r.failf("violation", "C03", "C03.do_not_cache_never_merged", "Execute of client %s has do_not_cache set but was attached to an existing task instead of getting its own", pf[2])
 		}
 	}
+	// C05: TerminateWorkers marks every registered worker that matches the pattern, whatever it is doing
+	if len(pf) == 4 && pf[0] == "term" {
+		pat := patternMap(pf[3])
+		for i := range st.SizeClassQueues {
+			for _, wk := range st.SizeClassQueues[i].Workers {
+				if workerMatches(wk.ID, pat) && !wk.Terminating {
+					r.failf("violation", "C05", "C05.terminating_monotone", "TerminateWorkers(%s) did not mark the matching worker %s as terminating", pf[3], parseWorkerID(wk.ID))
+				}
+			}
+		}
+	}
 	// C04: no task stays queued while an undrained worker of its queue is waiting for work
 	r.checkIdleWaiting(st)
 	// C03: same final result for all operations of one task; at most one live cacheable task per digest
@@ -332,6 +343,14 @@ func (r *run) checkNotDrained(wk string, after *scheduler.VerifState) {
 	wb, wa := findWorker(qb, k[2]), findWorker(qa, k[2])
 	if wb == nil || wa == nil || wa.CurrentTaskOperation == "" || wb.CurrentTaskOperation == wa.CurrentTaskOperation {
 		return
+	}
+	if tb := findTaskByOp(before, wb.CurrentTaskOperation); tb != nil && wb.CurrentTaskOperation != "" {
+		// a task is named after its lowest operation; that one may just have expired
+		for _, o := range tb.Operations {
+			if o.Name == wa.CurrentTaskOperation {
+				return
+			}
+		}
 	}
 	// The terminating mark belongs to a worker *registration*: when the worker of the previous segment
 	// had not synchronised for so long that it was removed as stale on entry, this Synchronize registered
